@@ -40,7 +40,7 @@ DETACH = {
                                 ('compromised_by|reached_attack_steps', 'Attacker'),
                                 ('entry_points@attackers', 'Attacker')], ('C09', 'C13', 'C10')),
     ('AttackGraph', 'attackers'): ([('compromised_by', 'AttackGraphNode')], ('C09', 'C11')),
-    ('Model', 'assets'): ([(DYN, ''), ('entry_points', 'AttackerAttachment')], ('C05',)),
+    ('Model', 'assets'): ([(DYN, ''), ('entry_points', 'AttackerAttachment')], ('C05', 'C02', 'C07', 'C01')),
     ('Model', 'associations'): ([('associations', 'pjs')], ('C05',)),
 }
 # functions that restore each side of a relation independently from an already mirrored source
